@@ -15,13 +15,14 @@
 #include "sqfs/error.h"
 
 #define BS (1u << 20)
-#define MAXBLK 4200
+#define MAXBLK 4300000		/* "huge": 4 TiB at 1 MiB per block = a block size list of 16 MiB */
 
 static sqfs_u64 val(const char *c)
 {
 	if (!strcmp(c, "zero")) return 0;
 	if (!strcmp(c, "lo")) return 3 * (sqfs_u64)BS + 17;
 	if (!strcmp(c, "max")) return 0xFFFFFFFFUL;
+	if (!strcmp(c, "huge")) return 0x40000000005ULL;
 	return 0x100000005ULL;
 }
 
@@ -31,6 +32,7 @@ static const char *cls(sqfs_u64 v)
 	if (v == 3 * (sqfs_u64)BS + 17) return "lo";
 	if (v == 0xFFFFFFFFUL) return "max";
 	if (v == 0x100000005ULL) return "hi";
+	if (v == 0x40000000005ULL) return "huge";
 	return "OTHER";
 }
 
@@ -57,7 +59,8 @@ int main(int argc, char **argv)
 		char *tok;
 		int err = 0, r;
 
-		ino = calloc(1, sizeof(*ino) + MAXBLK * sizeof(sqfs_u32));
+		int huge = strstr(line, "huge") != NULL;
+		ino = calloc(1, sizeof(*ino) + (huge ? MAXBLK : 4200) * sizeof(sqfs_u32));
 		if (!ino) return 2;
 		ino->base.type = SQFS_INODE_FILE;
 		ino->base.mode = 0100644;
@@ -91,7 +94,7 @@ int main(int argc, char **argv)
 		sqfs_inode_get_frag_location(ino, &fi, &fo);
 		count = size / BS;
 		if ((size % BS) && (fi == 0xFFFFFFFF || fo == 0xFFFFFFFF)) count++;
-		if (count > MAXBLK) return 2;
+		if (count > (huge ? MAXBLK : 4200)) return 2;
 		ino->payload_bytes_available = ino->payload_bytes_used = count * sizeof(sqfs_u32);
 
 		if (sqfs_file_open(&file, argv[1], SQFS_FILE_OPEN_OVERWRITE)) return 2;
